@@ -1,5 +1,5 @@
 CONSTANTS
-Mutant = 0
+Mutant = 5
 INIT SInit
 NEXT SNext
 INVARIANT I_FinalId
